@@ -69,10 +69,16 @@ err_t beltKWPUnwrap(octet dest[], const octet src[], size_t count,
 		!memIsValid(dest, count - 16))
 		return ERR_BAD_INPUT;
 	// создать состояние
-	state = blobCreate(beltKWP_keep() + 16);
+	state = blobCreate(beltKWP_keep() + 32);
 	if (state == 0)
 		return ERR_OUTOFMEMORY;
 	header2 = (octet*)state + beltKWP_keep();
+	// сохранить заголовок: он может пересекаться с dest
+	if (header)
+	{
+		memCopy(header2 + 16, header, 16);
+		header = header2 + 16;
+	}
 	// снять защиту
 	beltKWPStart(state, key, len);
 	memCopy(header2, src + count - 16, 16);
